@@ -29,6 +29,7 @@ def run(ctx, res):
             res.sample("%s protected by %s" % (f.path, idiom))
         else:
             res.bad("PARSE-PROGRESS", key, "forward-progress assertion in `%s`: %s" % (f.path, why), s.loc())
+    PP.loop_guards(P, reach, res)
     PP.pop_unpop(P, reach, res)
     # KEYWORD-GUARD: parse_symbol leaves a misplaced keyword unconsumed, so a sub-parser that starts with
     # parse_symbol and then recurses into parse_expression must not be entered on a keyword: the dispatch to
